@@ -76,7 +76,7 @@ var props = map[string]*propMeta{
 		},
 	},
 	"C08": {
-		level: "fault_enumeration", quickBudget: 100, thoroughBudget: 1500, stall: 30,
+		level: "fault_enumeration", quickBudget: 160, thoroughBudget: 1800, stall: 30,
 		rule: "Every call of Prepare/Run/Execute/Dump is wrapped (a panic reaching the wrapper is a violation) and runs in a worker process whose death or hang the coordinator observes and confirms in isolation. " +
 			"Enumerated tables: (field-access script x odd host object x front end), (faulty host function: nil/foreign/void/null result, panic with string/error/int/runtime error) x (position of the call in the script) x front end x optimizer, unbounded/mutual recursion scripts with no deadline, and deep nestings of 14 constructs at depths 10..50000. " +
 			"Random part: fault histories on generated scripts (cancel at tick, cancel inside host call, host panic, nil result, script errors, odd objects, Dump in between) with a 'still usable' probe after faults (benign run must succeed whenever a fresh evaluator holding the same variables succeeds), and hostile text = seeded token/byte-level mutations of valid scripts. " +
